@@ -171,6 +171,9 @@ func coarsen(d *simio.Delivery, n int) *simio.Delivery {
 
 func c05DeliveryRaw(r *core.Rand, class int, k int, withData bool) *simio.Delivery {
 	d := &simio.Delivery{FaultAt: k, FaultWithData: withData}
+	if k >= 0 && r.Chance(1, 4) {
+		d.ErrWraps = 1 + r.Intn(2)
+	}
 	switch class {
 	case 0: // single read
 	case 1: // byte at a time
@@ -421,6 +424,18 @@ func (c *c05) Check(rr *RunResult, st *Stats) []Failure {
 			}
 			if d.FaultWithData && k > 0 {
 				st.Fault("read_error_with_data")
+			}
+		case corner && op.Kind == "reader":
+			// The error rides on the Read call that completes the header: the header
+			// is complete, the reader did deliver those bytes, so the answer is
+			// Detect's (what io.ReadFull semantics give). Judged strictly for readers.
+			st.Probe("error_with_last_header_bytes")
+			if !okAnswer {
+				cls := "mismatch"
+				if !res.ErrNil {
+					cls = "spurious-error"
+				}
+				bad(cls, "the error was delivered together with the bytes that complete the header (all %d header bytes arrived): got %s err=%q; Detect on the same bytes reports %s", limit, res.R.Key(), res.ErrText, wantOK.Key())
 			}
 		case corner:
 			st.Probe("silent_corner")
